@@ -137,6 +137,24 @@ int main() {
       rebooted = false;
       fresh_process = true;
       std::cout << "new\n";
+    } else if (w.size() == 1 && w[0] == "stop" && rm) {
+      // the user drops a stop file: stop_simulation() reports it; the final dump follows
+      { std::ofstream sf(dir + "/stop"); sf << "stop\n"; }
+      const bool r = rm->stop_simulation();
+      std::cout << "stop " << (r ? 1 : 0) << "\n";
+      if (!r) bad << " stop-file-not-detected";
+    } else if (w.size() == 2 && w[0] == "newt") {
+      // manager whose wall-clock limit is already exceeded: stop_simulation() is true by time
+      restore({});
+      delete rm;
+      nmax = u64(w[1]);
+      rm = new RestartManager(dir, 3600., nmax, -1., "");
+      kdumps = 0;
+      lastv = 0;
+      rebooted = false;
+      fresh_process = true;
+      const bool r = rm->stop_simulation();
+      std::cout << "newt " << (r ? 1 : 0) << "\n";
     } else if (w.size() == 1 && w[0] == "reboot" && rm) {
       delete rm;
       rm = new RestartManager(dir, 3600., nmax, 1.e9, "");
